@@ -332,6 +332,156 @@ theorem append_crash_verdict (area hdrOld junk tail : Bytes) (ofs size crc : Nat
   · right; right; left
     simp [img, ops, crashImage, appendOps]
 
+/-- **The general form**: the old signature header points anywhere (`o`, `s`, `c`), the session writes from
+    `32 + pre.length` on. Every crash image is rejected by the two gates, or still starts with the old signature
+    header, has everything before the write position untouched and passes the gates with whatever now stands where
+    the old header stood (which then has the old header's CRC), or is the finished file, or exhibits a CRC-32
+    collision with the new field bytes. -/
+theorem append_crash_general (pre X tail : Bytes) (o s c : Nat) (ofs size crc : Nat) (n k : Nat)
+    (ho : o < 2 ^ 64) (hs : s < 2 ^ 64) (hc : c < 2 ^ 32) :
+    let sigOld := sigHeaderBytes o s c
+    let base := sigOld ++ pre ++ X
+    let ops := appendOps (32 + pre.length) (sigHeaderBytes ofs size crc) tail
+    let img := crashImage base ops n k
+    headerGate img = none ∨
+    (headerGate img = some (((img.drop 32).drop o).take s) ∧ crc32 (((img.drop 32).drop o).take s) = c ∧
+      img.take (32 + pre.length) = base.take (32 + pre.length)) ∨
+    img = applyAll base ops ∨
+    ∃ a b : Bytes, a.length = b.length ∧ a ≠ b ∧ crc32 a = crc32 b ∧ b = sigFields ofs size crc := by
+  intro sigOld base ops img
+  have hso : sigOld.length = 32 := sigBytes_length _ _ _
+  have hsn := sigBytes_length ofs size crc
+  have hP : (sigOld ++ pre).length = 32 + pre.length := by simp [hso]
+  have hover : ∀ t, applyWrite base ⟨32 + pre.length, t⟩ = sigOld ++ pre ++ (t ++ X.drop t.length) := by
+    intro t; rw [← hP]; exact applyWrite_over _ _ _
+  -- an image that still carries the old signature header
+  have hold : ∀ Y, let im := sigOld ++ pre ++ Y
+      headerGate im = none ∨ (headerGate im = some (((im.drop 32).drop o).take s) ∧ crc32 (((im.drop 32).drop o).take s) = c ∧
+        im.take (32 + pre.length) = base.take (32 + pre.length)) := by
+    intro Y im
+    have him : im = sigOld ++ (pre ++ Y) := by simp [im, List.append_assoc]
+    have hd : im.drop 32 = pre ++ Y := by rw [him, List.drop_left' hso]
+    have hg := headerGate_sig o s c (pre ++ Y) ho hs hc
+    rw [← him] at hg
+    rw [hd]
+    by_cases hcrc : crc32 (((pre ++ Y).drop o).take s) = c
+    · right
+      rw [hg, if_pos hcrc]
+      refine ⟨rfl, hcrc, ?_⟩
+      show (sigOld ++ pre ++ Y).take (32 + pre.length) = (sigOld ++ pre ++ X).take (32 + pre.length)
+      rw [← hP, List.take_left' rfl, List.take_left' rfl]
+    · left; rw [hg, if_neg hcrc]
+  have hfinal : applyAll base ops = sigHeaderBytes ofs size crc ++ (pre ++ (tail ++ X.drop tail.length)) := by
+    simp only [ops, applyAll, appendOps, List.foldl_cons, List.foldl_nil]
+    rw [hover tail, applyWrite_zero, hsn, List.append_assoc, List.drop_left' hso]
+  obtain rfl | rfl | ⟨m, rfl⟩ : n = 0 ∨ n = 1 ∨ ∃ m, n = m + 2 := by
+    rcases n with _ | _ | m
+    · exact Or.inl rfl
+    · exact Or.inr (Or.inl rfl)
+    · exact Or.inr (Or.inr ⟨m, rfl⟩)
+  · have e : img = sigOld ++ pre ++ (tail.take k ++ X.drop (tail.take k).length) := by
+      simp only [img, ops, crashImage, appendOps, List.take_zero, applyAll, List.foldl_nil, List.getElem?_cons_zero]
+      exact hover _
+    rw [e]
+    rcases hold (tail.take k ++ X.drop (tail.take k).length) with h | h
+    · exact Or.inl h
+    · exact Or.inr (Or.inl h)
+  · have e : img = (sigHeaderBytes ofs size crc).take k ++
+        (sigOld ++ (pre ++ (tail ++ X.drop tail.length))).drop ((sigHeaderBytes ofs size crc).take k).length := by
+      simp only [img, ops, crashImage, appendOps, applyAll, List.take_succ_cons, List.take_zero, List.foldl_cons, List.foldl_nil,
+        List.getElem?_cons_succ, List.getElem?_cons_zero]
+      rw [hover tail, applyWrite_zero, List.append_assoc]
+    by_cases hk : 32 ≤ k
+    · right; right; left
+      rw [e, hfinal, List.take_of_length_le (by omega), hsn, List.drop_left' hso]
+    · have hk' : k ≤ 32 := by omega
+      have e2 : img = ((sigHeaderBytes ofs size crc).take k ++ sigOld.drop k) ++ (pre ++ (tail ++ X.drop tail.length)) := by
+        rw [e, List.length_take, hsn, Nat.min_eq_left hk', List.drop_append_of_le_length (by omega), List.append_assoc]
+      have hA : (magic ++ [0, 4]).length = 8 := by decide
+      have hFn : (sigFields ofs size crc).length = 20 := by simp [sigFields, leBytes_length]
+      have hFo : (sigFields o s c).length = 20 := by simp [sigFields, leBytes_length]
+      have hDold : sigOld ++ (pre ++ (tail ++ X.drop tail.length)) = sigOld ++ pre ++ (tail ++ X.drop tail.length) := by
+        simp [List.append_assoc]
+      have hsoP : sigOld = magic ++ [0, 4] ++ leBytes (crc32 (sigFields o s c)) 4 ++ sigFields o s c := sig_parts _ _ _
+      rw [e2, sig_parts ofs size crc, hsoP]
+      rcases torn_sig_cases (magic ++ [0, 4]) (leBytes (crc32 (sigFields ofs size crc)) 4)
+        (leBytes (crc32 (sigFields o s c)) 4) (sigFields ofs size crc) (sigFields o s c) hA (leBytes_length _ _) (leBytes_length _ _)
+        hFn hFo k hk' with h | ⟨j, _, _, h⟩ | ⟨j, hj, h⟩
+      · rw [h, ← hsoP, hDold]
+        rcases hold (tail ++ X.drop tail.length) with h | h
+        · exact Or.inl h
+        · exact Or.inr (Or.inl h)
+      · rw [h]
+        by_cases hmix : (leBytes (crc32 (sigFields ofs size crc)) 4).take j ++ (leBytes (crc32 (sigFields o s c)) 4).drop j =
+            leBytes (crc32 (sigFields o s c)) 4
+        · rw [hmix, ← hsoP, hDold]
+          rcases hold (tail ++ X.drop tail.length) with h | h
+          · exact Or.inl h
+          · exact Or.inr (Or.inl h)
+        · left
+          apply headerGate_none_of_start
+          rw [startHeaderOk_parts _ _ _ (by simp [leBytes_length]; omega) hFo]
+          simp only [beq_eq_false_iff_ne, ne_eq]
+          intro hcontra
+          apply hmix
+          apply ofLE_inj_of_isBytes _ _ (by simp [leBytes_length]; omega)
+            (isBytes_append (isBytes_take (leBytes_isBytes _ _) _) (isBytes_drop (leBytes_isBytes _ _) _)) (leBytes_isBytes _ _)
+          rw [← hcontra, ofLE_leBytes, Nat.mod_eq_of_lt (by have := crc32_lt (sigFields o s c); omega)]
+      · rw [h]
+        by_cases heq : (sigFields ofs size crc).take j ++ (sigFields o s c).drop j = sigFields ofs size crc
+        · right; right; left
+          rw [heq, ← sig_parts, hfinal]
+        · by_cases hcc : crc32 ((sigFields ofs size crc).take j ++ (sigFields o s c).drop j) = crc32 (sigFields ofs size crc)
+          · right; right; right
+            exact ⟨_, sigFields ofs size crc, by simp [hFn, hFo]; omega, heq, hcc, rfl⟩
+          · left
+            apply headerGate_none_of_start
+            rw [startHeaderOk_parts _ _ _ (leBytes_length _ _) (by simp [hFn, hFo]; omega), ofLE_leBytes,
+              Nat.mod_eq_of_lt (by have := crc32_lt (sigFields ofs size crc); omega)]
+            simp [hcc]
+  · right; right; left
+    simp [img, ops, crashImage, appendOps]
+
+/-- **C14 for an append session on a base in the DEFAULT (encoded) header mode.** The base is `signature header ++
+    packed streams ++ packed header P ++ EncodedHeader record R ++ leftovers`; the session writes from the end of the
+    packed streams on — over P first, R later. `dec` is whatever the header's coder chain decodes to. Every crash
+    image is rejected at the signature-header or the record gate; or passes them with the OLD record while
+    everything before the write position is untouched — and then the packed header the record points at is still
+    `P`, or decodes to the same header, or fails the record's folder CRC (the gate added by cfa832b: without it this
+    case opened with whatever the overwritten region decoded to), or collides with it under CRC-32; or is the
+    finished file; or exhibits a CRC-32 collision of the record or of the new field bytes. -/
+theorem append_crash_verdict_encoded (dec : Bytes → Bytes) (area P R junk tail : Bytes) (ofs size crc : Nat) (n k : Nat)
+    (ha : area.length + P.length < 2 ^ 64) (hr : R.length < 2 ^ 64) :
+    let sigOld := sigHeaderBytes (area.length + P.length) R.length (crc32 R)
+    let base := sigOld ++ area ++ (P ++ R ++ junk)
+    let ops := appendOps (32 + area.length) (sigHeaderBytes ofs size crc) tail
+    let img := crashImage base ops n k
+    let Q := (img.drop (32 + area.length)).take P.length
+    headerGate img = none ∨
+    (headerGate img = some R ∧ img.take (32 + area.length) = base.take (32 + area.length) ∧
+      (Q = P ∨ dec Q = dec P ∨ crc32 (dec Q) ≠ crc32 (dec P) ∨ (dec Q ≠ dec P ∧ crc32 (dec Q) = crc32 (dec P)))) ∨
+    img = applyAll base ops ∨
+    ∃ a b : Bytes, a ≠ b ∧ crc32 a = crc32 b ∧ (b = R ∨ b = sigFields ofs size crc) := by
+  intro sigOld base ops img Q
+  rcases append_crash_general area (P ++ R ++ junk) tail (area.length + P.length) R.length (crc32 R) ofs size crc n k ha hr
+      (crc32_lt R) with h | ⟨h1, h2, h3⟩ | h | ⟨a, b, _, h2, h3, h4⟩
+  · exact Or.inl h
+  · by_cases hreg : ((img.drop 32).drop (area.length + P.length)).take R.length = R
+    · right; left
+      rw [hreg] at h1
+      refine ⟨h1, h3, ?_⟩
+      by_cases hq : Q = P
+      · exact Or.inl hq
+      · by_cases hd : dec Q = dec P
+        · exact Or.inr (Or.inl hd)
+        · by_cases hc : crc32 (dec Q) = crc32 (dec P)
+          · exact Or.inr (Or.inr (Or.inr ⟨hd, hc⟩))
+          · exact Or.inr (Or.inr (Or.inl hc))
+    · right; right; right
+      exact ⟨_, R, hreg, h2, Or.inl rfl⟩
+  · exact Or.inr (Or.inr (Or.inl h))
+  · exact Or.inr (Or.inr (Or.inr ⟨a, b, h2, h3, Or.inr h4⟩))
+
 /-- the writes of an append session on an archive in a good state (any archive reachable by a create session and
     append sessions, `C08.Written`) have the append shape: they start at the end of the old packed streams -/
 theorem append_ops_shape {σ} (s : ArchState) (good : s.Good) (cfg : WConfig σ) (ms : List WMember) (us : List Nat)
